@@ -144,3 +144,15 @@ Theorem C02_legacy_sensitive : forall t t' idx script script' ht c c' p,
   sig_view false c = sig_view false c'.
 Proof. exact legacy_sensitive. Qed.
 Print Assumptions C02_legacy_sensitive.
+
+(* taproot: equal pre-images force equal covered views (all hash types, key and script path, with or without annex) *)
+Theorem C02_v1_sensitive : forall (H1 : bytes -> bytes),
+  (forall a b, H1 a = H1 b -> a = b) -> (forall a, length (H1 a) = 32%nat) ->
+  forall t t' idx a a' ht p,
+  wf_tx t = true -> wf_tx t' = true ->
+  (same_iss_pattern (t_ins t) (t_ins t') \/ length (ser_issuances (t_ins t)) <> length (ser_issuances (t_ins t'))) ->
+  v1_args_wf t a -> v1_args_wf t' a' ->
+  preimage_v1 H1 t idx a ht = Some p -> preimage_v1 H1 t' idx a' ht = Some p ->
+  view_v1 t idx a ht = view_v1 t' idx a' ht.
+Proof. exact v1_sensitive. Qed.
+Print Assumptions C02_v1_sensitive.
